@@ -110,7 +110,17 @@ ASSUMPTIONS = {
 def log(*a):
     print(*a, flush=True)
 
+# sanitizer and locale settings of the caller must not change how an engine behaves or how its exit code reads
+SAN_ENV = {"ASAN_OPTIONS": "exitcode=77:detect_leaks=0:abort_on_error=0:allocator_may_return_null=1:detect_stack_use_after_return=0:handle_abort=0",
+           "UBSAN_OPTIONS": "halt_on_error=1:exitcode=77:print_stacktrace=1", "LC_ALL": "C", "MALLOC_PERTURB_": "", "MALLOC_CHECK_": ""}
+def engine_env():
+    e = dict(os.environ); e.update(SAN_ENV)
+    for k in ("LD_PRELOAD", "TSAN_OPTIONS", "LSAN_OPTIONS", "MSAN_OPTIONS"):
+        e.pop(k, None)
+    return e
+
 def sh(cmd, **kw):
+    kw.setdefault("env", engine_env())
     return subprocess.run(cmd, **kw)
 
 def repo_fingerprint():
@@ -208,7 +218,7 @@ def run_batch(prop, engine, variant, profile, runs, seed, outdir, time_cap, all_
         if all_hashes:
             cmd += ["--all-hashes"]
         lf = open(os.path.join(outdir, "w%d.log" % w), "ab")
-        p = subprocess.Popen(cmd, stdout=lf, stderr=subprocess.STDOUT, cwd=ROOT)
+        p = subprocess.Popen(cmd, stdout=lf, stderr=subprocess.STDOUT, cwd=ROOT, env=engine_env())
         procs[w] = (p, start_index, count, lf, time.time())
 
     for w in range(W):
@@ -535,4 +545,10 @@ def main():
     print(__doc__); return 2
 
 if __name__ == "__main__":
+    # the outcome must not depend on the signal dispositions the caller hands down (nohup, background jobs)
+    for _s in (signal.SIGCHLD, signal.SIGHUP, signal.SIGALRM):
+        try:
+            signal.signal(_s, signal.SIG_DFL)
+        except Exception:
+            pass
     sys.exit(main())
